@@ -28,7 +28,7 @@ type c13Case struct {
 }
 
 var c13Names = []string{"V", "HOME", "AMB", "DOT", "BOTH"}
-var c13Values = []string{"plain", "in ner", " lead", "trail ", "$x", "${x}", "{", "}", "a=b", "#", "'", "", "é-ü", "x'y z", "-n", "%s", "a\tb"}
+var c13Values = []string{"plain", "in ner", " lead", "trail ", "$x", "${x}", "{", "}", "a=b", "#", "'", "", "é-ü", "x'y z", "-n", "%s", "a\tb", "{{.W}}", "a{{.HOME}}b", "100%", "{{"}
 
 func shellSafe(v string) bool { return !strings.ContainsAny(v, "'") }
 
